@@ -43,14 +43,31 @@ impl Property for C17 {
         let mut msgs: Vec<(u32, Vec<u8>)> = Vec::new();
         let mut msg_group: Vec<usize> = Vec::new();
         let mut node = 100u32;
+        // every third run: the groups are a CONFUSABLE family - one ASCII/UTF-8 base string split at
+        // different positions into (measurement, epoch), same threshold - dealt back to back
+        let family: Option<(String, u32)> = if ctx.ch.chance(1, 3) {
+            let base = ctx.ch.pick(&["abc", "week-é", "2024-W07x", "ab", "日本語"]).to_string();
+            Some((base, *ctx.ch.pick(&[1u32, 2, 3])))
+        } else {
+            None
+        };
         for gi in 0..ng {
             let ml = *ctx.ch.pick(&[0usize, 1, 5, 20, 32, 200]);
             let mut m = ctx.ch.bytes(ml);
             if let Some(b) = m.first_mut() {
                 *b = gi as u8;
             }
-            let t = if ctx.ch.chance(1, 25) { 70 } else { *ctx.ch.pick(&[1u32, 2, 2, 3, 3, 5, 9]) };
-            let epoch = ctx.ch.pick(EPOCHS).to_string();
+            let mut t = if ctx.ch.chance(1, 25) { 70 } else { *ctx.ch.pick(&[1u32, 2, 2, 3, 3, 5, 9]) };
+            let mut epoch = ctx.ch.pick(EPOCHS).to_string();
+            if let Some((base, ft)) = &family {
+                // split at a char boundary
+                let cuts: Vec<usize> = (0..=base.len()).filter(|i| base.is_char_boundary(*i)).collect();
+                let c = cuts[(gi + ctx.ch.index(cuts.len())) % cuts.len()];
+                m = base.as_bytes()[..c].to_vec();
+                epoch = base[c..].to_string();
+                t = *ft;
+                ctx.stats.probe("confusable_measurement_epoch_groups");
+            }
             if groups.iter().any(|g| g.m == m && g.t == t && g.epoch == epoch) {
                 continue;
             }
